@@ -139,7 +139,7 @@ UNIT = {
               '&& (if right_closed { ord3(Value::Date(*self), Value::Date(*right))->Some_0 != Ordering::Greater } else { ord3(Value::Date(*self), Value::Date(*right))->Some_0 == Ordering::Less }))')]},
         clo('build_between', 'op_between', body_prefix='broadcast use axiom_num_trichotomy, axiom_str_order;\nproof { axiom_string_ord(); }',
             ensures=[('between_is_le_and_le', 'tri_result(r, between_spec(lhv, mhv, rhv))')]),
-        {'kind': 'fn', 'src': B, 'path': 'fn eval_in_range', 'key': 'compare::eval_in_range', 'props': P, 'auto_props': A, 'loops': 0, 'ret': 'r',
+        {'kind': 'fn', 'src': B, 'path': 'fn eval_in_range', 'key': 'compare::eval_in_range', 'props': P + ['C03'], 'auto_props': A + ['C03'], 'loops': 0, 'ret': 'r',
          'sig_rewrite': [(r'^(\s*)fn ', r'\1pub fn ')],
          'rewrites': [('R3',)],
          'body_prefix': 'broadcast use axiom_num_trichotomy, axiom_str_order;\nproof { axiom_string_ord(); }',
